@@ -76,6 +76,7 @@ ASSUMPTIONS = [
 ]
 BOUNDS = {
     "quick": {
+        "relroots": "two roots and a module directory spelled relatively to the current directory (2 x 4 x 3 spellings with ./, .., trailing separators) x 2 URIs x every history of <= 4 operations {fetch, remove / restore the file in root 1 / root 2} ending in a fetch, on one lookup, each in a child process with its own current directory",
         "n": 4,
         "mix_n": 3,
         "abs_tail": 2,
@@ -92,6 +93,7 @@ BOUNDS = {
         "n<=2/2 on {(abs, no modules), (two roots, modules)}",
     },
     "thorough": {
+        "relroots": "3 x 5 x 4 spellings, histories of <= 5 operations",
         "n": 6,
         "mix_n": 4,
         "abs_tail": 3,
@@ -975,7 +977,44 @@ def plan(tier, seed):
         out.append(j)
         if i % step == 0 and pj:
             out.append(pj.pop(0))
-    return out + pj
+    from mc import c09_relroots
+
+    rc = list(c09_relroots.cases(tier))
+    nr = 16
+    rj = [{"kind": "relroots", "tier": tier, "seed": seed, "cases": rc[i::nr]} for i in range(nr)]
+    return out + pj + rj
+
+
+def _relroots_batch(cases):
+    from mc import c09_relroots
+
+    scratch = core.scratch_dir("c09rr-")
+    out = []
+    for c in cases:
+        out.append(c09_relroots.run_in_scratch(c, scratch))
+    return out
+
+
+def _run_relroots_job(job, st):
+    cases = job["cases"]
+    n = 0
+    for i in range(0, len(cases), 300):
+        batch = cases[i : i + 300]
+        res = fork_call(_relroots_batch, batch)
+        for c, r in zip(batch, res):
+            n += 1
+            st.states += 1
+            st.traces += 1
+            st.evaluations += sum(1 for o in c["ops"] if o == "get")
+            st.transitions += len(c["ops"])
+            if len(set(c["ops"])) > 1:
+                st.nontrivial += 1
+            st.oracles["relroots"] += 1
+            st.outcomes[("relroots", "ok" if r is None else r[0])] += 1
+            if r is not None:
+                st.violation(r[0], c, r[1], expected=r[2], observed=r[3])
+    st.extra["relroots_histories"] = n
+    return st
 
 
 def cases_for(tier, n, fam):
@@ -1006,6 +1045,8 @@ def run_job(job):
     st = Stats()
     cwd = os.getcwd()
     try:
+        if job.get("kind") == "relroots":
+            return _run_relroots_job(job, st)
         if job.get("kind") == "pairs":
             return _run_pairs_job(job, st)
         return _run_job(job, st)
@@ -1642,6 +1683,9 @@ class _Ctx:
 
 def replay(case):
     case = core.unjson(case)
+    if case.get("kind") == "relroots":
+        r = fork_call(_relroots_batch, [case])[0]
+        return (True, "holds") if r is None else (False, "reproduced: %r" % (r,))
     seed = case.get("seed", 0)
     prelude = case.get("prelude")
     cwd = os.getcwd()
